@@ -69,7 +69,29 @@ func sourceForSubQuery(query *sql.Query, opts *Opts) (core.RowSource, error) {
 	if err != nil {
 		return nil, err
 	}
-	return core.Unflatten(subSource, query.FieldsNoHaving), nil
+	return core.Unflatten(subSource, &unflattenFields{query}), nil
+}
+
+// unflattenFields are the fields that Unflatten computes from the rows of a FROM
+// subquery: the selected ones and, if there is a HAVING clause, the synthetic
+// _having field. The group operator evaluates HAVING by sub-merging its _having
+// field from its input; without an input column of the same expression, a HAVING
+// clause that refers to a column of the subquery that is not selected (under the
+// same expression) would see no data at all and reject (or accept) every row.
+type unflattenFields struct {
+	query *sql.Query
+}
+
+func (uf *unflattenFields) Get(known core.Fields) (core.Fields, error) {
+	if uf.query.HasHaving {
+		return uf.query.Fields.Get(known)
+	}
+	return uf.query.FieldsNoHaving.Get(known)
+}
+
+func (uf *unflattenFields) String() string {
+	// the helper is an implementation detail, the plan shows the selected fields
+	return fmt.Sprint(uf.query.FieldsNoHaving)
 }
 
 func sourceForTable(query *sql.Query, opts *Opts) (core.RowSource, error) {
